@@ -167,11 +167,13 @@ def concreteLawsV (ext : ExtOps) (ecl : ExtCodeLawsV ext) : CodeLaws (vops ext) 
   newCont_val := fun _ _ => rfl
   makeClosure_val := fun hm => makeClosure_val hm
   vectorPush_val := by
-    intro h h' vec v he
-    have he' : vvectorPush ext h vec v = .ok h' := he
+    intro h h' d v he
+    have he' : vvectorPush ext h (deref h d) v = .ok h' := he
     unfold vvectorPush at he'
     split at he'
-    · assumption
+    · rename_i hp
+      show plainGlob d = true
+      cases d <;> first | rfl | exact hp
     · cases he'
   globGet_val := fun h n => vglobGet_val h n
   envGet_val := fun hg hne => venvGet_val hg hne
